@@ -338,6 +338,35 @@ pub fn run(r: &mut Runner) -> &'static str {
         }
         None
     };
+    // a byte slice that is itself a complete v2 header stating its own size is a byte slice like any other: above 65535 bytes
+    // it is refused (single write, batch, by reference), up to 65535 bytes it is written
+    let selfdesc = |shard: usize, nshards: usize, st: &mut Stats, _stop: &std::sync::atomic::AtomicBool| -> Option<(History, Fail)> {
+        let mut idx = 0usize;
+        for len in (65530usize..=65556).chain([16, 28, 232]) {
+            for variant in 0..4usize {
+                idx += 1;
+                if idx % nshards != shard {
+                    continue;
+                }
+                let v = bld::Val::Bytes { len, seed: crate::engine::SEED_V2HEADER };
+                let mut ops = match variant {
+                    0 => vec![Op::Payload { v, by_ref: false }],
+                    1 => vec![Op::Payload { v, by_ref: true }],
+                    2 => vec![Op::Payloads { vs: vec![v], native: true }],
+                    _ => vec![Op::SetLength(Some(40)), Op::Payload { v, by_ref: false }],
+                };
+                if variant == 0 {
+                    ops.insert(0, Op::Reserve(70_000));
+                }
+                let h = History { ctor: Ctor::New { vc: 0x21, afp: 0x00 }, ops };
+                if let Err(f) = judge(&h, st) {
+                    return Some((h, f));
+                }
+            }
+        }
+        None
+    };
+    r.bulk("c09.self-describing-slices", Some("byte slices of 65530..=65556 (and 16, 28, 232) bytes whose content is a v2 header stating exactly their size: single write, by reference, batch, under an explicit length"), &selfdesc, &judge);
     r.bulk("c09.many-calls", Some("255 / 256 / 257 / 511..513 / 65535..65537 repetitions of set_length(Some) after and before the first write, of (Some, None) pairs, of capacity hints under an explicit length, of one-byte writes"), &many, &judge);
     r.bulk("c09.huge-sections", Some("a single TLV-section payload of 3*2^16, 2^20+7, 2^24 (+5, +65535, +65536) and 2^25 (+12) bytes, with no explicit length and with one that is withdrawn before build"), &huge, &judge);
     "exploration"
